@@ -25,6 +25,7 @@ func gen(g *kernel.Rng, seed uint64, tier string) *kernel.Plan {
 	p.Cfg["flags"] = int64(g.Intn(4))
 	p.Cfg["rseg"] = int64(g.Pick(2, 2, 3, 2, 2))
 	p.Cfg["writer"] = int64(g.Pick(3, 2)) // 0 library muxer, 1 reference writer
+	p.Cfg["eofdata"] = int64(g.Pick(2, 1))
 	n := g.Range(0, 12)
 	big := g.Bool(0.003)
 	total := int64(0)
@@ -104,6 +105,7 @@ func run(p *kernel.Plan) (res *kernel.Result) {
 	disk.NoYield = true
 	disk.Record = true
 	disk.RSeg = int(p.C("rseg"))
+	disk.EOFData = p.C("eofdata") != 0
 	if p.C("writer") == 0 {
 		// library muxer onto the sim disk; the reference parser inspects the
 		// durable bytes after every write event
@@ -186,6 +188,7 @@ func run(p *kernel.Plan) (res *kernel.Result) {
 	res.Stat("reads", int64(disk.St.Reads))
 	res.Stat("short_reads", int64(disk.St.ShortReads))
 	res.Stat("one_byte_reads", int64(disk.St.OneByteReads))
+	res.Stat("reads_returning_data_with_eof", int64(disk.St.EOFWithData))
 	for _, t := range want {
 		if t.Timestamp >= 1<<24 {
 			res.Stat("tags_ts_over_24bit", 1)
